@@ -120,7 +120,7 @@ DTYPES = [("f64", "f64"), ("f32", "f64"), ("f64", "f32"), ("f32", "f32")]
 ARCHS = ["grid", "cvt", "sba", "prox"]
 STATES = ["empty", "one", "many", "cleared"]
 BOUNDS_CLIP = ["none", "box", "onesided", "tight", "nondyadic", "excl"]
-BOUNDS_ES = ["none", "box", "onesided", "tight", "nondyadic", "narrow"]
+BOUNDS_ES = ["none", "box", "onesided", "halfspace", "tight", "nondyadic", "narrow"]
 
 
 # --------------------------------------------------------------------------
@@ -223,6 +223,14 @@ def bounds_layout(name, dim):
     if name == "onesided":
         cyc = [(None, 0.5), (-0.5, None), None, (-1.0, 1.0), (None, None)]
         return [cyc[i % len(cyc)] for i in range(dim)], x0
+    if name == "halfspace":
+        # every dimension bounded on ONE side only (no dimension has both bounds): lower bounds only (the
+        # "non-negativity" kind of box), upper bounds only, or alternating -- by dimension count
+        if dim == 2:
+            return [(-1 / 8, None)] * dim, x0
+        if dim == 3:
+            return [(None, 1 / 8)] * dim, x0
+        return [(-1 / 8, None) if i % 2 == 0 else (None, 1 / 8) for i in range(dim)], x0
     if name == "tight":
         return [(-1 / 64, 1 / 64)] * dim, x0
     if name == "narrow":
@@ -1041,11 +1049,16 @@ def run_group(ctx, kinds):
     quick = ctx.quick
     lo_it, hi_it = (5, 6) if quick else (6, 30)
     rc = lambda case: run_case(case, ctx)
-    warm_up([k for k in kinds if k not in ("bounds", "pycma_shared")])
+    warm_up([k for k in kinds if k not in ("bounds", "pycma_shared") and not k.startswith("long_")])
     for kind in kinds:
         if kind == "bounds":
             ctx.explore("bounds", gen_bounds_case, lambda c: run_bounds_case(c, ctx), ctx.n(60, 2000),
                         time_budget=3 if quick else 20)
+            continue
+        if kind.startswith("long_"):
+            es = kind[len("long_"):]
+            ctx.explore(kind, make_long_gen(es, quick), lambda c: run_long_linear(c, ctx), ctx.n(1, 4),
+                        time_budget=None)
             continue
         if kind == "pycma_shared":
             ctx.explore("pycma_shared", gen_shared_case, lambda c: run_shared_case(c, ctx), ctx.n(12, 400),
@@ -1071,10 +1084,97 @@ BUDGET.update({"cma_es": (6, 200), "sep_cma_es": (6, 200), "lm_ma_es": (4, 110),
 GROUPS = [
     ["bounds", "gauss", "ga_gauss", "iso", "ga_iso"],
     ["gop_iso", "gop_iso_mg", "gop_line", "gop_line_mg", "gae_j32", "gae_j64"],
-    ["cma_es"],
-    ["sep_cma_es"],
-    ["lm_ma_es", "openai_es", "pycma_es", "pycma_shared"],
+    ["cma_es", "long_cma_es"],
+    ["sep_cma_es", "long_sep_cma_es"],
+    ["lm_ma_es", "openai_es", "pycma_es", "pycma_shared", "long_lm_ma_es", "long_openai_es", "long_pycma_es"],
 ]
+
+
+# --------------------------------------------------------------------------
+# long histories on an objective that keeps improving along one direction (f(x) = x[0]): the search distribution
+# stretches without bound, the covariance becomes extremely ill-conditioned -- "finite ... across many iterations"
+
+LONG_ES = ["cma_es", "sep_cma_es", "lm_ma_es", "openai_es", "pycma_es"]
+D51_KEY = "D51-sep-cma-es-diverges-to-inf"
+
+
+def long_linear_case(es, variant):
+    """deterministic cases; variant 0 is the one run on every quick run"""
+    case = {"kind": "long_linear", "es": es, "sd": "f32", "md": "f32", "dim": 6, "batch": 8, "x0": "1",
+            "sigma": "1/2", "ranker": "obj", "selection": "mu", "restart": "basic", "seed": 1, "aseed": 1,
+            "iters": 260}
+    if es == "sep_cma_es":
+        # the reported configuration (D51): diverges to inf on a float32 archive at iteration ~108
+        case.update(dim=10, x0="0", iters=400)
+    if es == "lm_ma_es":
+        case.update(batch=4)      # batch_size <= solution_dim is required; batch == dim is C18's open finding D50
+    if variant == 1:
+        case.update(sd="f64", md="f64", ranker="2imp", selection="filter", restart="no_improvement", seed=2,
+                    iters=320 if es == "cma_es" else 200)
+    elif variant == 2:
+        case.update(sd="f64", md="f32", seed=3, iters=260 if es != "sep_cma_es" else 400)
+    elif variant == 3:
+        case.update(ranker="2imp", selection="filter", restart="no_improvement", seed=4,
+                    iters=320 if es == "cma_es" else 200)
+    case["ops"] = [{"op": "cfg", "tag": f"long_linear/{es}/{variant}"}]
+    return case
+
+
+def run_long_linear(case, ctx):
+    from ribs.emitters import EvolutionStrategyEmitter
+    warnings.simplefilter("ignore")
+    es, sd, md, dim, batch = case["es"], case["sd"], case["md"], case["dim"], case["batch"]
+    arch = mk_archive("grid", dim, sd, md, case["aseed"])
+    kw = {"mirror_sampling": False} if es == "openai_es" else {}
+    try:
+        em = EvolutionStrategyEmitter(arch, es=es, es_kwargs=kw, ranker=case["ranker"],
+                                      selection_rule=case["selection"], restart_rule=case["restart"],
+                                      batch_size=batch, x0=np.full(dim, float(Fraction(case["x0"]))),
+                                      sigma0=float(Fraction(case["sigma"])), seed=case["seed"])
+    except Exception as ex:  # pylint: disable=broad-except
+        return Failure("oracle", f"constructor raised {type(ex).__name__}: {str(ex)[:100]}")
+    lo, hi = em.lower_bounds, em.upper_bounds
+    for it in range(case["iters"]):
+        where = f"iteration {it} ask ({es}, {np.dtype(D[sd]).name} solutions, objective f(x) = x[0])"
+        try:
+            out = timed(em.ask)
+        except AskTimeout:
+            return Failure("oracle", f"{where}: ask() did not return within {ASK_TIMEOUT} s")
+        except Exception as ex:  # pylint: disable=broad-except
+            return Failure("oracle", f"{where}: raised {type(ex).__name__}: {str(ex)[:80]}")
+        f = oracle_array(where, out, batch, dim, sd, lo, hi)
+        if f is not None:
+            if es == "sep_cma_es" and isinstance(out, np.ndarray) and out.shape == (batch, dim) and \
+                    not np.any(np.isnan(out)) and np.any(np.isinf(out)):
+                f.key = D51_KEY
+                import os as _os
+                if _os.environ.get("TMP_MASK_D51") == "1":  # TEMPORARY (validation only)
+                    return None
+                f.what += (f" -- {int(np.sum(np.isinf(out)))} inf entries after {em.restarts} restarts: sigma and the "
+                           f"diagonal covariance grow without bound on a linear objective and no stop criterion fires")
+            return f
+        sols = np.asarray(out, dtype=np.float64)
+        obj = sols[:, 0]
+        meas = np.clip(sols[:, 1:3], -2.0, 2.0)
+        try:
+            em.tell(out, obj, meas, arch.add(out, obj, meas))
+        except Exception as ex:  # pylint: disable=broad-except
+            ctx.count(f"tell-raised:long_linear:{es}:{type(ex).__name__}")
+            return None
+    ctx.count(f"long_linear:{es}:iterations", case["iters"])
+    ctx.count(f"long_linear:{es}:restarts", int(em.restarts))
+    return None
+
+
+def make_long_gen(es, quick):
+    it = {"i": 0}
+
+    def gen(_rng):
+        v = it["i"]
+        it["i"] += 1
+        return long_linear_case(es, 0 if quick else v % 4)
+
+    return gen
 
 
 # --------------------------------------------------------------------------
@@ -1231,4 +1331,6 @@ def replay(ctx, case):
         return run_bounds_case(case, ctx)
     if case.get("kind") == "pycma_shared":
         return run_shared_case(case, ctx)
+    if case.get("kind") == "long_linear":
+        return run_long_linear(case, ctx)
     return run_case(case, ctx)
